@@ -54,9 +54,10 @@ Inductive chain (v : list vslot) : option Z -> list Z -> Prop :=
 | chain_cons i vs nx l :
     vget v i = Some vs -> item vs = VFree nx -> chain v nx l -> chain v (Some i) (i :: l).
 
-Definition free_ok (s : tstate) : Prop :=
-  exists l, chain (var s) (var_free s) l /\ NoDup l /\
-            forall i vs, vget (var s) i = Some vs -> (is_free vs = true <-> In i l).
+Definition free_okv (v : list vslot) (f : option Z) : Prop :=
+  exists l, chain v f l /\ NoDup l /\
+            forall i vs, vget v i = Some vs -> (is_free vs = true <-> In i l).
+Definition free_ok (s : tstate) : Prop := free_okv (var s) (var_free s).
 
 Record TInv (s : tstate) : Prop := mkTInv {
   i_cnow : 0 <= cnow s < TMAX;
@@ -87,8 +88,61 @@ Definition op_ok (s : tstate) (o : top) : Prop :=
   end.
 
 (** the counters stay clear of their wrap-around for histories shorter than 2^31 - 2 ops:
-    [n] is the number of ops executed so far *)
+    [n] is the number of ops executed so far (one op adds at most one to the sequence number, to
+    each slot generation, and to the number of slots) *)
 Definition counters_ok (s : tstate) (n : Z) : Prop :=
-  seq s <= n /\ forall i vs, vget (var s) i = Some vs -> gnn vs <= n + 1.
+  seq s <= n /\ (forall i vs, vget (var s) i = Some vs -> gnn vs <= n + 1) /\
+  Z.of_nat (length (var s)) <= n.
 
 Definition HMAX : Z := 2147483646.         (* histories shorter than 2^31 - 2 operations *)
+
+(** ** the invariant inside [advance]
+
+    [PH now0 s hd]: the state while [process_head] iterates over the entries [hd] split off the
+    queue by the current step of [advance] ([now0] = Timers::now before the step, [now s] the
+    step's new value).  The remaining
+    head entries are not in the queue; a live var slot has its entry either in the queue (key
+    beyond the new now) or still in [hd]; everything else is as in [TInv] w.r.t. the new now. *)
+Definition slot_okH (s : tstate) (hd : list entry) (i : Z) (vs : vslot) : Prop :=
+  1 <= gnn vs < M32 /\
+  match curr_of vs, expiry_of vs with
+  | Some c, Some ex =>
+      0 <= ex < 2 ^ 50 /\
+      ((now s < c <= now s + WIN /\ exists cb, In (c mod M32, i, cb) (queue s)) \/
+       (exists cb, In (c mod M32, i, cb) hd))
+  | _, _ => True
+  end.
+
+(** var slots of the remaining head entries are pairwise distinct *)
+Inductive hd_distinct : list entry -> Prop :=
+| hdd_nil : hd_distinct []
+| hdd_cons e l : (e_slot e < FIX -> forall e', In e' l -> e_slot e' <> e_slot e) ->
+                 hd_distinct l -> hd_distinct (e :: l).
+
+Record PH (now0 : Z) (s : tstate) (hd : list entry) : Prop := mkPH {
+  h_now0 : 0 <= now0 <= now s /\ now s <= now0 + WIN;
+  h_now : now s < 2 ^ 49 /\ now s mod 65536 <= 61035;
+  h_seq : 0 <= seq s < M32;
+  h_hd_sorted : StronglySorted (klt now0) hd;
+  h_hd_ok : Forall (entry_ok now0) hd;
+  h_entries : Forall (entry_ok (now s)) (queue s);
+  h_sorted : StronglySorted (klt (now s)) (queue s);
+  h_slots : forall i vs, vget (var s) i = Some vs -> slot_okH s hd i vs;
+  h_varq : forall e, In e (queue s) -> e_slot e < FIX -> var_entry s e;
+  h_varh : forall e, In e hd -> e_slot e < FIX -> var_entry s e;
+  h_disj : forall e e', In e hd -> In e' (queue s) -> e_slot e < FIX -> e_slot e <> e_slot e';
+  h_dist : hd_distinct hd;
+  h_fixed : forall e, In e (queue s) -> FIX <= e_slot e -> e_slot e <= seq s + FIX;
+  h_free : free_ok s;
+  h_len : Z.of_nat (length (var s)) <= FIX
+}.
+
+(** counters while operation number [n] is being executed (each slot is freed at most once) *)
+Definition CH (n : Z) (s : tstate) : Prop :=
+  seq s <= n /\ Z.of_nat (length (var s)) <= n /\
+  forall i vs, vget (var s) i = Some vs ->
+               gnn vs <= n + 2 /\ (is_free vs = false -> gnn vs <= n + 1).
+
+(** re-queue: set slot [i] to [x] and insert its new key *)
+Definition m_requeue (s : tstate) (i : Z) (x : vslot) (w cb : Z) : tstate :=
+  set_queue (set_var s (vset (var s) i x)) (q_insert w i cb (queue s)).
